@@ -124,7 +124,10 @@ def rebuild(real, model):
     for b in real.boxes:
         by_ident.setdefault(repr(b), b)
     boxes = [by_ident[b[0]] for b in model[1]]
-    return type(real)(real.dom, real.cod, boxes, list(model[2]))
+    from discopy import monoidal
+    # the scanning constructor, then the class-preserving upgrade (type(real) may be Id or Box,
+    # whose constructors have other signatures)
+    return real.upgrade(monoidal.Diagram(real.dom, real.cod, boxes, list(model[2])))
 
 
 def _differ(a, b):
